@@ -364,13 +364,11 @@ def r4_rejections(report, repo):
   report.expect_instances(rule, len(lens), 1, '_coordinates_len calls')
   for n, c in lens:
     arg = c.args[0] if c.args else None
-    is_param = isinstance(arg, ast.Name) and arg.id in params and \
-        arg.id != 'self'
-    rebinds = [m for m in gd.nodes if m.kind == 'stmt' and m.ast is not None
-               and is_param and any(
-                   isinstance(t, ast.Name) and t.id == arg.id
-                   for t in core.assigned_targets(m.ast))]
-    ok = is_param and not any(n in gd.reach([m]) for m in rebinds)
+    # everything that reaches the count is the caller's parameter itself
+    # (possibly handed through locals), never a rebound / wrapped value
+    vals = lib.value_exprs(gd, n, arg) if arg is not None else []
+    ok = bool(vals) and all(isinstance(v, ast.Name) and v.id in params[1:]
+                            for v in vals)
     report.check(ok, rule, d.qualname, 'count-of-raw-coordinates', c,
                  'the coordinate count is taken of the caller-supplied '
                  'coordinates', 'the coordinate count is taken after the '
